@@ -12,7 +12,7 @@ LEVEL = "exploration"
 TECHNIQUE = "exhaustive enumeration of branch mnemonic x displacement -140..+140 x target form x window placement x relocation x mapping against the ISA opcode and the arithmetic displacement"
 RULE = (
     "programs `*=S` [`@=R`] label/padding/branch built so that target - (branch+2) = d for every d in -140..140 (quick: 2 mnemonics over the full range, the others at "
-    "-129,-128,-1,0,127,128), target given as backward label / forward label / numeric address, placements {mid-window, branch on the last two bytes of the window, target on "
+    "-129,-128,-1,0,127,128) and for far same-bank displacements (+-0x100, 0x200, 0x1000, 0x4000, half a window, a window minus 0x100, a whole window, each +-{0..3,126..130}), target given as backward label / forward label / numeric address, placements {mid-window, branch on the last two bytes of the window, target on "
     "the first byte, target on the last byte}, relocation {none, @= to a ROM address in another bank, @= to RAM with ROM or RAM target, ROM branch to a RAM address}, LoROM and "
     "HiROM.  Oracle: same bank + both in-window ROM: -128<=d<=127 => accepted with [opcode, d&0xFF]; else rejected; RAM run address or RAM target => rejected.  "
     "Non-trivial = |d| in 126..130, or a window-edge placement, or any @= / RAM case; distinct by construction."
@@ -59,7 +59,22 @@ def build(case):
         return None
     if tgt == "fwd" and d < 0:
         return None
-    if place == "mid":
+    if place == "far":
+        # a same-bank branch whose true displacement is far out of range (up to a whole window): it must be rejected,
+        # never wrapped modulo 256 / the window size
+        B = (hi - 1) if d < 0 else lo
+        if tgt == "fwd" or tgt == "back":
+            T = B + 2 + d
+            if not (lo <= T <= hi):
+                return None
+            if reloc != "none":
+                return None
+            # the label lives in another *= block of the same bank
+            src = f"*=0x{T:06x}\ntg:\n.db 0x60\n*=0x{B:06x}\n{m} tg\n" if tgt == "back" else f"*=0x{B:06x}\n{m} tg\n*=0x{T:06x}\ntg:\n.db 0x60\n"
+            return src, rom, ("reject", "out of range")
+    if place == "far":
+        pass
+    elif place == "mid":
         B = bank | ((r.win_lo + r.win_hi + 1) // 2 + 0x123)
     elif place == "branch-at-end":
         B = hi - 1
@@ -177,6 +192,19 @@ def run_case(case) -> Outcome:
                             ev += 1
                             if 126 <= abs(d) <= 130 or place != "mid" or reloc != "none":
                                 nt += 1
+        # far displacements (same bank): every multiple-of-256 alias and the window-size aliases of small displacements
+        W = 0x8000 if case["rom"] == "low" else 0x10000
+        far = set()
+        for base in (0x100, 0x200, 0x1000, 0x4000, W // 2, W - 0x100, W):
+            for k in (-130, -129, -128, -127, -3, -2, -1, 0, 1, 2, 3, 126, 127, 128, 129):
+                far.update((base + k, -(base + k)))
+        for d in sorted(x for x in far if abs(x) > 140):
+            for tgt in TARGETS:
+                for reloc in ("none", "rom"):
+                    sub = {"m": case["m"], "rom": case["rom"], "d": d, "tgt": tgt, "place": "far", "reloc": reloc}
+                    if check_one(out, sub):
+                        ev += 1
+                        nt += 1
         out.evals, out.nontrivial = ev, nt
         out.labels = [f"branch:{case['rom']}:{'full' if case['full'] else 'keypoints'}"]
         b = build({"m": case["m"], "rom": case["rom"], "d": -128, "tgt": "back", "place": "target-at-start", "reloc": "rom"})
